@@ -2994,4 +2994,296 @@ theorem iflip1_iflip1_of_eq (s0 : ISeq) (i0 i : ℤ) : (i0 = i ∧ 0 ≤ i ∧ i
   rintro ⟨rfl, _, _⟩
   exact iflip1_iflip1 s0 i0
 
+
+/-! # Ninth batch: `implchain` (all-equal cycle) and the lifting clauses `liftcls` / `liftsem` / `yblock` -/
+
+/-- `[[-X[i-1], X[i]] for i in 1..len-1]`: the implication chain `X[0] → X[1] → …` -/
+def implchain : ISeq → CSeq
+  | [] => []
+  | [_] => []
+  | x :: y :: t => [-x, y] :: implchain (y :: t)
+
+theorem length_implchain : ∀ X : ISeq, (implchain X).length = X.length - 1
+  | [] => rfl
+  | [_] => rfl
+  | x :: y :: t => by
+    have := length_implchain (y :: t)
+    simp only [implchain, List.length_cons] at this ⊢
+    omega
+
+theorem mem_implchain : ∀ (X : ISeq) (c : ISeq), c ∈ implchain X → ∃ x ∈ X, ∃ y ∈ X, c = [-x, y]
+  | [], c, h => by simp [implchain] at h
+  | [_], c, h => by simp [implchain] at h
+  | x :: y :: t, c, h => by
+    simp only [implchain, List.mem_cons] at h
+    rcases h with rfl | h
+    · exact ⟨x, by simp, y, by simp, rfl⟩
+    · obtain ⟨x', hx', y', hy', rfl⟩ := mem_implchain (y :: t) c h
+      exact ⟨x', List.mem_cons_of_mem _ hx', y', List.mem_cons_of_mem _ hy', rfl⟩
+
+/-- `ilen(X) >= 1 -> clen(implchain(X)) == ilen(X) - 1` -/
+theorem clen_implchain (X : ISeq) : ilen X ≥ 1 → clen (implchain X) = ilen X - 1 := by
+  unfold ilen clen
+  intro h
+  rw [length_implchain]
+  omega
+
+/-- `cmaxabs(implchain(X)) <= maxabs(X)` -/
+theorem cmaxabs_implchain (X : ISeq) : cmaxabs (implchain X) ≤ maxabs X := by
+  rw [cmaxabs_le_iff _ _ (maxabs_nonneg' X)]
+  intro c hc
+  obtain ⟨x, hx, y, hy, rfl⟩ := mem_implchain X c hc
+  have h1 := natAbs_le_maxabs X x hx
+  have h2 := natAbs_le_maxabs X y hy
+  have hnil : maxabs ([] : ISeq) = 0 := rfl
+  rw [maxabs_cons, maxabs_cons, Int.natAbs_neg, hnil]
+  omega
+
+/-- `Not(haszero(X)) -> Not(chaszero(implchain(X)))` -/
+theorem chaszero_implchain (X : ISeq) : ¬ haszero X → ¬ chaszero (implchain X) := by
+  rintro hz ⟨c, hc, h0⟩
+  obtain ⟨x, hx, y, hy, rfl⟩ := mem_implchain X c hc
+  unfold haszero at h0 hz
+  simp only [List.mem_cons, List.not_mem_nil, or_false] at h0
+  rcases h0 with h | h
+  · have : x = 0 := by omega
+    exact hz (this ▸ hx)
+  · exact hz (h ▸ hy)
+
+theorem implchain_forward (a : Asg) : ∀ (x : ℤ) (t : ISeq), ¬ haszero (x :: t) →
+    sat a (implchain (x :: t)) → litTrue a x = true → ∀ y ∈ x :: t, litTrue a y = true
+  | x, [], _, _, hx, y, hy => by
+    simp only [List.mem_singleton] at hy; subst hy; exact hx
+  | x, z :: t, hz, hs, hx, y, hy => by
+    have hx0 : x ≠ 0 := fun e => hz (by unfold haszero; simp [e])
+    have hcl : ctrue a [-x, z] := hs _ (by simp [implchain])
+    have hzt : litTrue a z = true := by
+      obtain ⟨l, hl, hlt⟩ := hcl
+      simp only [List.mem_cons, List.not_mem_nil, or_false] at hl
+      rcases hl with rfl | rfl
+      · rw [litTrue_neg a x hx0, hx] at hlt; simp at hlt
+      · exact hlt
+    rcases List.mem_cons.mp hy with rfl | hy'
+    · exact hx
+    · exact implchain_forward a z t
+        (fun h => hz (by unfold haszero at *; exact List.mem_cons_of_mem _ h))
+        (fun c hc => hs c (by simp [implchain, hc])) hzt y hy'
+
+theorem implchain_backward (a : Asg) : ∀ (x : ℤ) (t : ISeq), ¬ haszero (x :: t) →
+    sat a (implchain (x :: t)) → litTrue a ((x :: t).getLast (by simp)) = false →
+    ∀ y ∈ x :: t, litTrue a y = false
+  | x, [], _, _, hl, y, hy => by
+    simp only [List.mem_singleton] at hy; subst hy; simpa using hl
+  | x, z :: t, hz, hs, hl, y, hy => by
+    have hx0 : x ≠ 0 := fun e => hz (by unfold haszero; simp [e])
+    have hl' : litTrue a ((z :: t).getLast (by simp)) = false := by
+      rw [List.getLast_cons_cons] at hl; exact hl
+    have ih := implchain_backward a z t
+      (fun h => hz (by unfold haszero at *; exact List.mem_cons_of_mem _ h))
+      (fun c hc => hs c (by simp [implchain, hc])) hl'
+    have hzf : litTrue a z = false := ih z List.mem_cons_self
+    rcases List.mem_cons.mp hy with rfl | hy'
+    · have hcl : ctrue a [-y, z] := hs _ (by simp [implchain])
+      obtain ⟨l, hl2, hlt⟩ := hcl
+      simp only [List.mem_cons, List.not_mem_nil, or_false] at hl2
+      rcases hl2 with rfl | rfl
+      · rw [litTrue_neg a y hx0] at hlt
+        cases hh : litTrue a y
+        · rfl
+        · rw [hh] at hlt; simp at hlt
+      · rw [hzf] at hlt; simp at hlt
+    · exact ih y hy'
+
+theorem iget_last (X : ISeq) (hne : X ≠ []) : iget X (ilen X - 1) = X.getLast hne := by
+  have hpos : 0 < X.length := List.length_pos_of_ne_nil hne
+  unfold iget ilen
+  have h1 : ((X.length : ℤ) - 1).toNat = X.length - 1 := by omega
+  rw [h1, List.getD_eq_getElem?_getD, List.getElem?_eq_getElem (by omega), List.getLast_eq_getElem]
+  rfl
+
+theorem count_eq_zero_iff (a : Asg) (s : ISeq) : count a s = 0 ↔ ∀ l ∈ s, litTrue a l = false := by
+  unfold count countTrue
+  have h0 : ((List.countP (litTrue a) s : ℕ) : ℤ) = 0 ↔ List.countP (litTrue a) s = 0 := by omega
+  rw [h0, List.countP_eq_zero]
+  constructor
+  · intro h l hl; simpa using h l hl
+  · intro h l hl; simp [h l hl]
+
+/-- `allequal_cycle`: `And(n >= 1, Not(haszero(X))) -> And(Or(lit_true(a, iget(X, 0)), Not(lit_true(a, iget(X, n - 1)))),
+    sat(a, implchain(X))) == Or(count(a, X) == 0, count(a, X) == n)`, `n = ilen(X)` -/
+theorem allequal_cycle (a : Asg) (X : ISeq) : (ilen X ≥ 1 ∧ ¬ haszero X) →
+    (((lit_true a (iget X 0) ∨ ¬ lit_true a (iget X (ilen X - 1))) ∧ sat a (implchain X)) ↔
+     (count a X = 0 ∨ count a X = ilen X)) := by
+  rintro ⟨hn, hz⟩
+  cases X with
+  | nil => simp [ilen] at hn
+  | cons x t =>
+    have hne : (x :: t) ≠ [] := by simp
+    have h0 : iget (x :: t) 0 = x := by simp [iget]
+    rw [iget_last _ hne, h0, count_eq_zero_iff, count_eq_ilen_iff]
+    unfold lit_true
+    constructor
+    · rintro ⟨h | h, hs⟩
+      · right; exact implchain_forward a x t hz hs h
+      · left
+        apply implchain_backward a x t hz hs
+        simpa using h
+    · rintro (h | h)
+      · refine ⟨Or.inr ?_, ?_⟩
+        · rw [h _ (List.getLast_mem hne)]; simp
+        · intro c hc
+          obtain ⟨x', hx', y', _, rfl⟩ := mem_implchain _ c hc
+          have hx0 : x' ≠ 0 := fun e => hz (show (0:ℤ) ∈ x :: t from e ▸ hx')
+          exact ⟨-x', by simp, by rw [litTrue_neg a x' hx0, h x' hx']; rfl⟩
+      · refine ⟨Or.inl (h x List.mem_cons_self), ?_⟩
+        intro c hc
+        obtain ⟨x', _, y', hy', rfl⟩ := mem_implchain _ c hc
+        exact ⟨y', by simp, h y' hy'⟩
+
+/-! ## lifting: selector `y_i` picks copy `x_i` -/
+
+/-- `[[-(yo+i), s*(xo+i)] for i in 1..k]` -/
+def liftcls (xo yo k s : ℤ) : CSeq :=
+  (List.range k.toNat).map (fun (j : ℕ) => [-(yo + ((j : ℤ) + 1)), s * (xo + ((j : ℤ) + 1))])
+/-- the `k` selector variables of original variable `v` (lifting layout) -/
+def yblock (v k : ℤ) : ISeq := apseq ((v - 1) * 2 * k + k + 1) k
+/-- every true selector of variable `v` selects a copy whose value is `pos`
+    (`xo = (v-1)*2*k`, `yo = xo + k`) -/
+def liftsem (a : Asg) (v k : ℤ) (pos : Prop) : Prop :=
+  ∀ i : ℤ, (1 ≤ i ∧ i ≤ k) → lit_true a ((v - 1) * 2 * k + k + i) →
+    (lit_true a ((v - 1) * 2 * k + i) ↔ pos)
+
+/-- `yblock(v, k) == apseq((v - 1) * 2 * k + k + 1, k)` (definition) -/
+theorem yblock_def (v k : ℤ) : yblock v k = apseq ((v - 1) * 2 * k + k + 1) k := rfl
+
+theorem mem_liftcls (xo yo k s : ℤ) (c : ISeq) :
+    c ∈ liftcls xo yo k s ↔ ∃ i : ℤ, (1 ≤ i ∧ i ≤ k) ∧ c = [-(yo + i), s * (xo + i)] := by
+  unfold liftcls
+  rw [List.mem_map]
+  constructor
+  · rintro ⟨j, hj, rfl⟩
+    rw [List.mem_range] at hj
+    exact ⟨(j : ℤ) + 1, ⟨by omega, by omega⟩, rfl⟩
+  · rintro ⟨i, ⟨h1, h2⟩, rfl⟩
+    refine ⟨(i - 1).toNat, List.mem_range.mpr (by omega), ?_⟩
+    have : (((i - 1).toNat : ℕ) : ℤ) + 1 = i := by omega
+    rw [this]
+
+theorem mem_apseq (st n x : ℤ) : x ∈ apseq st n ↔ ∃ j : ℤ, (0 ≤ j ∧ j < n) ∧ x = st + j := by
+  unfold apseq
+  rw [List.mem_map]
+  constructor
+  · rintro ⟨j, hj, rfl⟩
+    rw [List.mem_range] at hj
+    exact ⟨(j : ℤ), ⟨by omega, by omega⟩, rfl⟩
+  · rintro ⟨j, ⟨h1, h2⟩, rfl⟩
+    exact ⟨j.toNat, List.mem_range.mpr (by omega), by omega⟩
+
+/-- `k >= 0 -> clen(liftcls(xo, yo, k, s)) == k` -/
+theorem clen_liftcls (xo yo k s : ℤ) : k ≥ 0 → clen (liftcls xo yo k s) = k := by
+  intro h; simp [clen, liftcls]; omega
+
+/-- `And(xo >= 0, yo >= 0, Or(s == 1, s == -1)) ->
+    And(Not(chaszero(t)), cmaxabs(t) <= zmax(xo, yo) + zmax(k, 0))`, `t = liftcls(xo, yo, k, s)` -/
+theorem liftcls_bounds (xo yo k s : ℤ) : (xo ≥ 0 ∧ yo ≥ 0 ∧ (s = 1 ∨ s = -1)) →
+    (¬ chaszero (liftcls xo yo k s) ∧ cmaxabs (liftcls xo yo k s) ≤ zmax xo yo + zmax k 0) := by
+  rintro ⟨hx, hy, hs⟩
+  rw [zmax_eq_max, zmax_eq_max]
+  constructor
+  · rintro ⟨c, hc, h0⟩
+    obtain ⟨i, ⟨h1, h2⟩, rfl⟩ := (mem_liftcls _ _ _ _ c).mp hc
+    unfold haszero at h0
+    simp only [List.mem_cons, List.not_mem_nil, or_false] at h0
+    rcases hs with rfl | rfl <;> omega
+  · rw [cmaxabs_le_iff _ _ (by omega)]
+    intro c hc
+    obtain ⟨i, ⟨h1, h2⟩, rfl⟩ := (mem_liftcls _ _ _ _ c).mp hc
+    simp only [maxabs, List.foldr]
+    rcases hs with rfl | rfl <;> omega
+
+/-- `sat_liftcls`: `And(k2 == k, k >= 1, v >= 1, xo == (v - 1) * 2 * k, yo == xo + k, Or(s == 1, s == -1),
+    pos == (s == 1)) -> sat(a, liftcls(xo, yo, k, s)) == liftsem(a, v, k, pos)` -/
+theorem sat_liftcls (a : Asg) (xo yo k s v k2 : ℤ) (pos : Prop) :
+    (k2 = k ∧ k ≥ 1 ∧ v ≥ 1 ∧ xo = (v - 1) * 2 * k ∧ yo = xo + k ∧ (s = 1 ∨ s = -1) ∧ (pos ↔ s = 1)) →
+    (sat a (liftcls xo yo k s) ↔ liftsem a v k pos) := by
+  rintro ⟨_, hk, hv, hxo, rfl, hs, hpos⟩
+  have hxo0 : 0 ≤ xo := by
+    rw [hxo]; exact mul_nonneg (mul_nonneg (by omega) (by norm_num)) (by omega)
+  unfold liftsem
+  rw [← hxo]
+  have hclause : ∀ i : ℤ, (1 ≤ i ∧ i ≤ k) →
+      (ctrue a [-(xo + k + i), s * (xo + i)] ↔
+        (lit_true a (xo + k + i) → (lit_true a (xo + i) ↔ pos))) := by
+    rintro i ⟨h1, h2⟩
+    have hy0 : xo + k + i ≠ 0 := by omega
+    have hx0 : xo + i ≠ 0 := by omega
+    unfold ctrue lit_true
+    simp only [List.mem_cons, List.not_mem_nil, or_false, exists_eq_or_imp, exists_eq_left]
+    rw [litTrue_neg a _ hy0]
+    rcases hs with rfl | rfl
+    · have hp : pos := hpos.mpr rfl
+      simp only [one_mul, hp, iff_true]
+      cases litTrue a (xo + k + i) <;> simp
+    · have hp : ¬ pos := fun h => by have := hpos.mp h; omega
+      have : (-1 : ℤ) * (xo + i) = -(xo + i) := by ring
+      rw [this, litTrue_neg a _ hx0]
+      simp only [hp, iff_false]
+      cases litTrue a (xo + k + i) <;> cases litTrue a (xo + i) <;> simp
+  unfold sat
+  constructor
+  · intro h i hi
+    exact (hclause i hi).mp (h _ ((mem_liftcls _ _ _ _ _).mpr ⟨i, hi, rfl⟩))
+  · intro h c hc
+    obtain ⟨i, hi, rfl⟩ := (mem_liftcls _ _ _ _ c).mp hc
+    exact (hclause i hi).mpr (h i hi)
+
+theorem countP_eq_one_unique {α : Type} (p : α → Bool) (l : List α) (h : l.countP p = 1) :
+    ∃ x ∈ l, p x = true ∧ ∀ y ∈ l, p y = true → y = x := by
+  rw [List.countP_eq_length_filter, List.length_eq_one_iff] at h
+  obtain ⟨x, hx⟩ := h
+  have hxm : x ∈ l.filter p := by rw [hx]; simp
+  rw [List.mem_filter] at hxm
+  refine ⟨x, hxm.1, hxm.2, ?_⟩
+  intro y hy hpy
+  have : y ∈ l.filter p := List.mem_filter.mpr ⟨hy, hpy⟩
+  rw [hx] at this
+  simpa using this
+
+/-- `liftsem_flip`: `And(k >= 1, v >= 1, count(a, yblock(v, k)) == 1) ->
+    liftsem(a, v, k, True) == Not(liftsem(a, v, k, False))` -/
+theorem liftsem_flip (a : Asg) (v k : ℤ) : (k ≥ 1 ∧ v ≥ 1 ∧ count a (yblock v k) = 1) →
+    (liftsem a v k True ↔ ¬ liftsem a v k False) := by
+  rintro ⟨_, _, hc⟩
+  have hc' : (yblock v k).countP (litTrue a) = 1 := by
+    unfold count countTrue at hc; omega
+  obtain ⟨x, hx, hxt, huniq⟩ := countP_eq_one_unique _ _ hc'
+  unfold yblock at hx huniq
+  obtain ⟨j, ⟨hj0, hj1⟩, rfl⟩ := (mem_apseq _ _ _).mp hx
+  -- the unique true selector is i0 = j + 1
+  have hsel : ∀ i : ℤ, (1 ≤ i ∧ i ≤ k) → lit_true a ((v - 1) * 2 * k + k + i) → i = j + 1 := by
+    rintro i ⟨h1, h2⟩ hl
+    have hm : (v - 1) * 2 * k + k + i ∈ apseq ((v - 1) * 2 * k + k + 1) k :=
+      (mem_apseq _ _ _).mpr ⟨i - 1, ⟨by omega, by omega⟩, by ring⟩
+    have := huniq _ hm hl
+    linarith
+  have hi0 : lit_true a ((v - 1) * 2 * k + k + (j + 1)) := by
+    unfold lit_true
+    have : (v - 1) * 2 * k + k + (j + 1) = (v - 1) * 2 * k + k + 1 + j := by ring
+    rw [this]; exact hxt
+  unfold liftsem
+  constructor
+  · intro hT hF
+    have h1 := (hT (j + 1) ⟨by omega, by omega⟩ hi0).mpr trivial
+    exact (hF (j + 1) ⟨by omega, by omega⟩ hi0).mp h1
+  · intro hnF i hi hl
+    have hij := hsel i hi hl
+    subst hij
+    refine ⟨fun _ => trivial, fun _ => ?_⟩
+    by_contra hx
+    apply hnF
+    intro i' hi' hl'
+    have := hsel i' hi' hl'
+    subst this
+    exact ⟨fun h => hx h, fun h => h.elim⟩
+
 end CnfSem
